@@ -30,6 +30,7 @@ type caseRec struct {
 	World  map[string]any `json:"world"`
 	Claims []string       `json:"claims"`
 	Order  []int          `json:"delivery_order"`
+	Phases []int          `json:"delivery_phases,omitempty"`
 	Query  string         `json:"query"`
 	Want   any            `json:"want"`
 	Got    any            `json:"got"`
@@ -57,7 +58,7 @@ func short(r blob.Ref) string {
 
 func main() {
 	ev.Main("C07", "exploration",
-		"generated permanodes with 1-14 set/add/del claims (multi-valued, repeated values, values and attribute NAMES needing escaping, two signers, sub-second dates, two claims inside one second, equal dates on different attributes, one pre-1970 date) and delete/undelete chains on claims and permanodes (incl. two deleters of one target), delivered out of date order; a reference claim-folding model written from doc/schema/{permanode,delete}.md is compared with: corpus built incrementally, corpus loaded from rows (AppendPermanodeAttrValues, PermanodeAttrValue, PermanodeHasAttrValue, PermanodeModtime, IsDeleted), index rows with and without corpus (AppendClaims membership, claim fields, attrFilter, and the claims folded by the harness at every T; IsDeleted; PathLookup/PathsLookup/PathsOfSignerTarget for camliPath attributes), search Describe(At) and Query (PermanodeConstraint Attr+Value, NumValue, ValueInSet, Relation child/parent, SkipHidden; all with At) at times before/between/exactly-at/after the claim dates and zero, with and without signer filter; distinct = (world, permanode, attr, time, signer, path); non-trivial = the permanode has at least 2 claims on the attribute or a deleted claim",
+		"generated permanodes with 1-14 set/add/del claims (multi-valued, repeated values, values and attribute NAMES needing escaping, two signers, sub-second dates, two claims inside one second, equal dates on different attributes, one pre-1970 date) and delete/undelete chains on claims and permanodes (incl. two deleters of one target), delivered out of date order; plus a round-5 family: clusters of claims inside one second whose RFC 3339 date strings (none / 1..9 fractional digits) do not sort chronologically, and histories delivered in 2-3 parts with a re-open of the index over the same rows between the parts (corpus re-loaded then extended incrementally; classic likewise), later parts deleting (un)delete claims of earlier parts, IsDeleted judged after every part; a reference claim-folding model written from doc/schema/{permanode,delete}.md is compared with: corpus built incrementally, corpus loaded from rows (AppendPermanodeAttrValues, PermanodeAttrValue, PermanodeHasAttrValue, PermanodeModtime, IsDeleted), index rows with and without corpus (AppendClaims membership, claim fields, attrFilter, and the claims folded by the harness at every T; IsDeleted; PathLookup/PathsLookup/PathsOfSignerTarget for camliPath attributes), search Describe(At) and Query (PermanodeConstraint Attr+Value, NumValue, ValueInSet, Relation child/parent, SkipHidden; all with At) at times before/between/exactly-at/after the claim dates and zero, with and without signer filter; distinct = (world, permanode, attr, time, signer, path); non-trivial = the permanode has at least 2 claims on the attribute or a deleted claim",
 		run)
 }
 
@@ -80,9 +81,10 @@ func run(r *ev.Run) {
 	wrng := r.Rand("worlds")
 	xrng := r.Rand("c07extra")
 	type job struct {
-		w   *hw.World
-		wid string
-		ord []int
+		w      *hw.World
+		wid    string
+		ord    []int
+		phases []int // nil: the whole history is delivered to one index; else the delivery phase of every blob
 	}
 	jobs := make(chan job, 16)
 	var wg sync.WaitGroup
@@ -93,7 +95,7 @@ func run(r *ev.Run) {
 		go func() {
 			defer wg.Done()
 			for j := range jobs {
-				checkWorld(r, j.w, j.wid, j.ord, &smu, &sampled)
+				checkWorld(r, j.w, j.wid, j.ord, j.phases, &smu, &sampled)
 			}
 		}()
 	}
@@ -141,12 +143,68 @@ func run(r *ev.Run) {
 		for f := range w.Features {
 			r.Note("world_features", f)
 		}
-		jobs <- job{w, wid, ord}
+		jobs <- job{w, wid, ord, nil}
+	}
+	// Round-5 family (own PRNG streams, own case ids: the worlds above stay what they were):
+	// (a) claim clusters whose date STRINGS do not sort chronologically (hw.C07Extra.LexDates);
+	// (b) phased delivery: the history arrives in 2 or 3 parts and the index is re-opened over the
+	// same rows between the parts (corpus mode: the corpus is loaded from the rows at the re-open
+	// and then extended incrementally; classic mode likewise without corpus); later parts hold
+	// delete claims on (un)delete claims of earlier parts.  Everything is judged after the last part.
+	nR5 := r.Pick(120, 900)
+	r5rng := r.Rand("c07round5")
+	for j := 0; j < nR5; j++ {
+		wo := hw.WorldOpts{TwoSigners: j%2 == 1, Label: fmt.Sprintf("c07r5w%d", j), NoFiles: true, NoEmptyValues: true,
+			Permanodes: 1 + j%3, MaxClaims: []int{3, 6, 10}[(j/3)%3], Deletes: j % 4, PlainAttrsOnly: j%5 == 1}
+		w := hw.GenWorld(r5rng, wo)
+		nPhases := 0
+		if j%4 != 3 {
+			nPhases = 2 + j%2
+		}
+		x := hw.C07Extra{
+			LexDates:     j%3 != 1,
+			SameSecond:   j%7 == 2,
+			TwoDeleters:  j%5 == 3,
+			DeepChain:    j%6 == 4,
+			PathChain:    j%8 == 5,
+			ExtraDeletes: j % 3,
+			Pins:         map[blob.Ref]int{},
+		}
+		if nPhases > 0 {
+			x.ReopenChains = 1 + j%2
+		}
+		hw.ExtendC07(w, rand.New(rand.NewSource(r5rng.Int63())), x)
+		prng := rand.New(rand.NewSource(r5rng.Int63()))
+		wid := fmt.Sprintf("r5w%d;", j)
+		var ord []int
+		switch j % 3 {
+		case 0:
+			ord = dateOrder(w, false)
+		default:
+			ord = prng.Perm(len(w.Blobs))
+		}
+		var phases []int
+		if nPhases > 0 {
+			phases = hw.C07Phases(w, prng, nPhases, x.Pins)
+		}
+		if !r.Only(wid) {
+			continue
+		}
+		if nPhases > 0 {
+			r.Note("delivery_modes", fmt.Sprintf("phased-%d-parts-with-reopen", nPhases))
+		} else {
+			r.Note("delivery_modes", "round5-single-part")
+		}
+		for f := range w.Features {
+			r.Note("world_features", f)
+		}
+		jobs <- job{w, wid, ord, phases}
 	}
 	close(jobs)
 	wg.Wait()
 	r.Require("world_features", "claim-set-attribute", "claim-add-attribute", "claim-del-attribute", "delete-of-claim", "delete-of-delete", "delete-of-permanode", "two-signers", "subsecond-date", "foreign-signer-claim",
-		"c07-escaped-attr-name", "c07-repeated-value-del", "c07-same-second-pair", "c07-cross-attr-date-tie", "c07-defvis-history", "c07-two-deleters", "c07-pre-1970-claim", "c07-path-chain", "c07-deep-delete-chain")
+		"c07-escaped-attr-name", "c07-repeated-value-del", "c07-same-second-pair", "c07-cross-attr-date-tie", "c07-defvis-history", "c07-two-deleters", "c07-pre-1970-claim", "c07-path-chain", "c07-deep-delete-chain",
+		"c07-lexical-date-order", "c07-reopen-chain")
 	r.Require("paths", "corpus-live", "corpus-loaded", "index-rows", "describe-classic", "describe-corpus-live", "describe-corpus-loaded", "query-corpus-live", "query-corpus-loaded",
 		"attr-value-corpus-live", "attr-value-corpus-loaded", "has-attr-value-corpus-live", "has-attr-value-corpus-loaded",
 		"claims-fold-classic", "claims-fold-corpus-live", "claims-fold-corpus-loaded", "claims-content", "claims-attrfilter",
@@ -155,26 +213,28 @@ func run(r *ev.Run) {
 		"query-skiphidden-corpus-live", "query-skiphidden-corpus-loaded", "modtime-corpus-live", "modtime-corpus-loaded",
 		"paths-lookup-classic", "paths-lookup-corpus-live", "paths-lookup-corpus-loaded", "path-lookup-classic", "path-lookup-corpus-live", "path-lookup-corpus-loaded",
 		"paths-of-target-classic", "paths-of-target-corpus-live", "paths-of-target-corpus-loaded")
-	r.Require("delivery_modes", "claim-date-order", "reverse-claim-date-order", "random")
+	r.Require("delivery_modes", "claim-date-order", "reverse-claim-date-order", "random", "phased-2-parts-with-reopen", "phased-3-parts-with-reopen")
 	r.Require("signer_filters", "none", "owner", "second-signer", "unknown-key-id")
 	r.Require("time_classes", "zero", "before-all", "between", "exactly-at", "after-all")
 	r.Require("moments", "deleted-claim-present", "undeleted-claim-present", "out-of-order-delivery",
-		"historical-T-with-deleted-claim", "numvalue-judged", "relation-with-deleted-edge-claim", "escaped-attr-filter")
+		"historical-T-with-deleted-claim", "numvalue-judged", "relation-with-deleted-edge-claim", "escaped-attr-filter",
+		"classic-rows-not-in-date-order-and-order-matters", "deleter-deleted-after-reopen", "cancelled-deletion-revived-after-reopen", "is-deleted-judged-at-reopen")
 }
 
 // wc is the state of one world check.
 type wc struct {
-	r     *ev.Run
-	w     *hw.World
-	wid   string
-	ord   []int
-	paths []path
-	ctx   context.Context
-	byRef map[blob.Ref]hw.ClaimInfo
+	r      *ev.Run
+	w      *hw.World
+	wid    string
+	ord    []int
+	phases []int
+	paths  []path
+	ctx    context.Context
+	byRef  map[blob.Ref]hw.ClaimInfo
 }
 
 func (c *wc) rec(q string, want, got any) caseRec {
-	return caseRec{CaseID: c.wid, World: c.w.Describe(), Claims: claimList(c.w), Order: c.ord, Query: q, Want: want, Got: got}
+	return caseRec{CaseID: c.wid, World: c.w.Describe(), Claims: claimList(c.w), Order: c.ord, Phases: c.phases, Query: q, Want: want, Got: got}
 }
 
 func norm(v []string) []string {
@@ -273,20 +333,32 @@ func (c *wc) queryHits(p path, pc *search.PermanodeConstraint, sortType search.S
 	return hits, nil
 }
 
-func checkWorld(r *ev.Run, w *hw.World, wid string, ord []int, smu *sync.Mutex, sampled *int) {
+func checkWorld(r *ev.Run, w *hw.World, wid string, ord []int, phases []int, smu *sync.Mutex, sampled *int) {
 	ctx := context.Background()
-	live, err := hw.NewIdx(nil, nil, true)
-	if err != nil {
-		r.Inconclusive(err.Error())
-		return
-	}
-	for _, bi := range ord {
-		if err := live.Deliver(w.Blobs[bi]); err != nil {
-			r.Violation("delivery-error", fmt.Sprintf("%s: %v", wid, err), caseRec{CaseID: wid, Order: ord})
+	var live, classic *hw.Idx
+	var err error
+	if phases == nil {
+		live, err = hw.NewIdx(nil, nil, true)
+		if err != nil {
+			r.Inconclusive(err.Error())
+			return
+		}
+		for _, bi := range ord {
+			if err := live.Deliver(w.Blobs[bi]); err != nil {
+				r.Violation("delivery-error", fmt.Sprintf("%s: %v", wid, err), caseRec{CaseID: wid, Order: ord})
+				return
+			}
+		}
+		live.Quiesce()
+	} else {
+		// the same phased history for an index with corpus and for one without
+		if live = deliverPhased(r, w, wid, ord, phases, true); live == nil {
+			return
+		}
+		if classic = deliverPhased(r, w, wid, ord, phases, false); classic == nil {
 			return
 		}
 	}
-	live.Quiesce()
 	// date-order vs delivery-order
 	for i := 1; i < len(ord); i++ {
 		if ord[i] < ord[i-1] {
@@ -300,11 +372,13 @@ func checkWorld(r *ev.Run, w *hw.World, wid string, ord []int, smu *sync.Mutex, 
 		r.Violation("reload-fails", fmt.Sprintf("%s: %v", wid, err), nil)
 		return
 	}
-	cp2, _ := hw.CopyKV(live.KV)
-	classic, err := hw.NewIdx(cp2, live.Src, false)
-	if err != nil {
-		r.Violation("reload-fails", fmt.Sprintf("%s: %v", wid, err), nil)
-		return
+	if classic == nil {
+		cp2, _ := hw.CopyKV(live.KV)
+		classic, err = hw.NewIdx(cp2, live.Src, false)
+		if err != nil {
+			r.Violation("reload-fails", fmt.Sprintf("%s: %v", wid, err), nil)
+			return
+		}
 	}
 	owner := index.NewOwner(w.Signers[0].KeyID, w.Signers[0].PubRef)
 	paths := []path{
@@ -315,7 +389,7 @@ func checkWorld(r *ev.Run, w *hw.World, wid string, ord []int, smu *sync.Mutex, 
 	for _, p := range paths[:2] {
 		p.sh.SetCorpus(p.corpus)
 	}
-	c := &wc{r: r, w: w, wid: wid, ord: ord, paths: paths, ctx: ctx, byRef: map[blob.Ref]hw.ClaimInfo{}}
+	c := &wc{r: r, w: w, wid: wid, ord: ord, phases: phases, paths: paths, ctx: ctx, byRef: map[blob.Ref]hw.ClaimInfo{}}
 	for _, ci := range w.Claims {
 		c.byRef[ci.Ref] = ci
 	}
@@ -524,6 +598,9 @@ func checkWorld(r *ev.Run, w *hw.World, wid string, ord []int, smu *sync.Mutex, 
 				if ci.PN == pn && ci.Attr == attr {
 					nOn++
 				}
+			}
+			if lexicalOrderMatters(w, pn, attr) {
+				r.Note("moments", "classic-rows-not-in-date-order-and-order-matters")
 			}
 			for _, t := range times {
 				r.Note("time_classes", t.class)
@@ -739,9 +816,128 @@ func checkWorld(r *ev.Run, w *hw.World, wid string, ord []int, smu *sync.Mutex, 
 	smu.Lock()
 	if *sampled < 4 && len(w.Claims) > 3 {
 		*sampled++
-		r.Sample(map[string]any{"world": w.Describe(), "claims": claimList(w), "delivery_order": ord})
+		r.Sample(map[string]any{"world": w.Describe(), "claims": claimList(w), "delivery_order": ord, "delivery_phases": phases})
 	}
 	smu.Unlock()
+}
+
+// lexicalOrderMatters reports whether the owner's (signer 1) non-deleted claims on (pn, attr), applied
+// in the order of their claim-date STRINGS (the order of the claim rows of one signer), give another
+// present value than applied in claim-date order.  Evidence only: the verdicts come from the model.
+func lexicalOrderMatters(w *hw.World, pn blob.Ref, attr string) bool {
+	var cs []hw.ClaimInfo
+	for _, ci := range w.Claims {
+		if ci.Kind != "delete" && ci.PN == pn && ci.Attr == attr && ci.Signer == 1 && !w.Deleted(ci.Ref) {
+			cs = append(cs, ci)
+		}
+	}
+	if len(cs) < 2 {
+		return false
+	}
+	sort.SliceStable(cs, func(i, j int) bool { return hw.C07DateKey(cs[i].Date) < hw.C07DateKey(cs[j].Date) })
+	return !reflect.DeepEqual(norm(hw.Canon(hw.FoldClaimInfos(cs))), norm(w.Values(pn, attr, time.Time{}, 1, true)))
+}
+
+// deliverPhased delivers the history in parts: part k holds the blobs with phases[i] == k, in the
+// order ord.  Before every part but the first the index is re-opened: a new index.Index over the
+// same rows and the same blob source (with corpus: the corpus is loaded from the rows, then extended
+// incrementally by the part).  hw.C07Phases makes every part dependency-closed, so a part ends with
+// nothing pending.  After every part Index.IsDeleted (and Corpus.IsDeleted) is judged against the
+// model restricted to the delete claims delivered so far.  Returns the index after the last part.
+func deliverPhased(r *ev.Run, w *hw.World, wid string, ord []int, phases []int, corpus bool) *hw.Idx {
+	mode := "classic"
+	if corpus {
+		mode = "corpus-live"
+	}
+	nPhases := 0
+	for _, p := range phases {
+		if p+1 > nPhases {
+			nPhases = p + 1
+		}
+	}
+	phaseOf := map[blob.Ref]int{}
+	for i, b := range w.Blobs {
+		phaseOf[b.Ref] = phases[i]
+	}
+	var idx *hw.Idx
+	delivered := map[blob.Ref]bool{}
+	for ph := 0; ph < nPhases; ph++ {
+		var err error
+		if idx == nil {
+			idx, err = hw.NewIdx(nil, nil, corpus)
+		} else {
+			// what each deletion looked like when the rows were loaded
+			cancelledAtLoad := map[blob.Ref]bool{}
+			for _, ci := range w.Claims {
+				if ci.Kind == "delete" && delivered[ci.Ref] && w.DeletedAmong(ci.Ref, delivered) {
+					cancelledAtLoad[ci.Ref] = true
+				}
+			}
+			for _, ci := range w.Claims {
+				if ci.Kind == "delete" && phaseOf[ci.Ref] == ph && delivered[ci.Target] && w.Kind[ci.Target] == "delete" {
+					r.Note("moments", "deleter-deleted-after-reopen")
+				}
+			}
+			later := map[blob.Ref]bool{}
+			for i, b := range w.Blobs {
+				if phases[i] <= ph {
+					later[b.Ref] = true
+				}
+			}
+			for d := range cancelledAtLoad {
+				if !w.DeletedAmong(d, later) {
+					r.Note("moments", "cancelled-deletion-revived-after-reopen")
+				}
+			}
+			idx, err = hw.NewIdx(idx.KV, idx.Src, corpus)
+		}
+		if err != nil {
+			if ph == 0 {
+				r.Inconclusive(err.Error())
+			} else {
+				r.Violation("reload-fails", fmt.Sprintf("%s: re-open before part %d: %v", wid, ph, err), nil)
+			}
+			return nil
+		}
+		for _, bi := range ord {
+			if phases[bi] != ph {
+				continue
+			}
+			if err := idx.Deliver(w.Blobs[bi]); err != nil {
+				r.Violation("delivery-error", fmt.Sprintf("%s: part %d: %v", wid, ph, err), caseRec{CaseID: wid, Order: ord})
+				return nil
+			}
+			delivered[w.Blobs[bi].Ref] = true
+		}
+		idx.Quiesce()
+		if ph == nPhases-1 {
+			break // the complete history is judged by the caller
+		}
+		for _, b := range w.Blobs {
+			k := w.Kind[b.Ref]
+			if !delivered[b.Ref] || (k != "permanode" && k != "claim" && k != "delete") {
+				continue
+			}
+			want := w.DeletedAmong(b.Ref, delivered)
+			r.Eval(1)
+			r.Note("moments", "is-deleted-judged-at-reopen")
+			q := fmt.Sprintf("IsDeleted %s after part %d of %d (parts %v)", b.Ref, ph+1, nPhases, phases)
+			if got := idx.Index.IsDeleted(b.Ref); got != want {
+				r.Violation("is-deleted/index-"+mode, fmt.Sprintf("%s: after part %d of %d: Index.IsDeleted(%s %s)=%v, model says %v", wid, ph+1, nPhases, k, short(b.Ref), got, want),
+					caseRec{CaseID: wid, World: w.Describe(), Claims: claimList(w), Order: ord, Phases: phases, Query: "Index." + q, Want: want, Got: got})
+			}
+			if idx.Corpus != nil {
+				idx.Index.RLock()
+				got := idx.Corpus.IsDeleted(b.Ref)
+				idx.Index.RUnlock()
+				if got != want {
+					r.Violation("is-deleted/"+mode, fmt.Sprintf("%s: after part %d of %d: Corpus.IsDeleted(%s %s)=%v, model says %v", wid, ph+1, nPhases, k, short(b.Ref), got, want),
+						caseRec{CaseID: wid, World: w.Describe(), Claims: claimList(w), Order: ord, Phases: phases, Query: "Corpus." + q, Want: want, Got: got})
+				}
+			}
+		}
+	}
+	return idx
 }
 
 type timeCase struct {
